@@ -123,7 +123,7 @@ template <class KT, int KIND> struct Ck {
     const C& cc = c;
     for (int k = 0; k < universe + 3; ++k) {
       size_t at = findKey(ref, k);
-      K kk = KT::make(k);
+      const K& kk = KT::make(k);   // by reference: copying an attached String key would make it owned and terminated
       It it = cc.find(kk);
       if (at == npos) { if (it != cc.end()) fail(key("find"), "find(key#%d) returned an entry although the key is absent", k); }
       else {
@@ -225,7 +225,7 @@ template <class KT, int KIND> struct Ck {
     long oldv = exists ? ref[at].v : 0;
     if (exists) { if (KIND == HMAP) ref[at].v = v; cnt("insert_existing_key"); }
     else { Ent e = { k, KIND == HSET ? 0 : v }; ref.insert(expect, e); }
-    K kk = KT::make(k);
+    const K& kk = KT::make(k);   // by reference: copying an attached String key would make it owned and terminated
     if constexpr (KIND == HMAP) {
       Elem value(v);
       if (how == INSERT) { It pos = iterAt(c, posIdx); It r = c.insert(pos, kk, value); if (c.size() != ref.n) fail(key("size"), "size() %lu after the call, model %lu", (unsigned long)c.size(), (unsigned long)ref.n); size_t ri = indexOf(c, r, ref.n); if (ri != expect) fail(key("returned-iterator"), "returned iterator is at position %ld, expected %lu", (long)ri, (unsigned long)expect); }
@@ -254,7 +254,7 @@ template <class KT, int KIND> struct Ck {
     C& c = *b.c; size_t at = findKey(b.ref, k);
     const char* cls = "absent"; if (at != npos) { It it = iterAt(c, at); cls = chainClass(c, it.item); }
     setctxf("%s.remove(key)/chain-%s", cname(), cls); hist.addf("remove(key#%d)\n", k); setItem("chain_remove_pos", cls);
-    K kk = KT::make(k);
+    const K& kk = KT::make(k);   // by reference: copying an attached String key would make it owned and terminated
     c.remove(kk);
     if (at != npos) b.ref.removeAt(at);
     cnt("op_remove_key"); if (at == npos) cnt("remove_absent_key");
@@ -370,7 +370,7 @@ template <class KT, int KIND> static void history(Ck<KT, KIND>& ck, Rng& r, long
         ck.all(cp, universe, true); ck.equality(cp, m);
         setctxf("%s.copy-construct/independence", CK::cname());
         switch (r.below(4)) { case 0: cp.c->clear(); cp.ref.clear(); break; case 1: if (cp.ref.n) { cp.c->removeFront(); cp.ref.removeAt(0); } break; case 2: if (cp.ref.n) { cp.c->removeBack(); cp.ref.pop(); } break; default: break; }
-        { Ent e = { universe + 1, KIND == HSET ? 0 : -5 }; typename KT::K kk = KT::make(universe + 1); if constexpr (KIND == HMAP) cp.c->append(kk, Elem(-5)); else cp.c->append(kk); if (findKey(cp.ref, universe + 1) == npos) cp.ref.push(e); else if (KIND == HMAP) cp.ref[findKey(cp.ref, universe + 1)].v = -5; }
+        { Ent e = { universe + 1, KIND == HSET ? 0 : -5 }; const typename KT::K& kk = KT::make(universe + 1); if constexpr (KIND == HMAP) cp.c->append(kk, Elem(-5)); else cp.c->append(kk); if (findKey(cp.ref, universe + 1) == npos) cp.ref.push(e); else if (KIND == HMAP) cp.ref[findKey(cp.ref, universe + 1)].v = -5; }
         ck.all(cp, universe, true); ck.all(m, universe, true);
         delete cp.c; cp.c = 0;
         ck.all(m, universe, true);
